@@ -58,6 +58,8 @@ def build(v):
         return collections.deque(build(x) for x in v['$deque'])
     if '$set' in v:
         return set(build(x) for x in v['$set'])
+    if '$iter' in v:
+        return iter([build(x) for x in v['$iter']])
     if '$frac' in v:
         return fractions.Fraction(*v['$frac'])
     if '$enum' in v:
@@ -117,6 +119,9 @@ def main(path):
     if K is not None and hasattr(K, 'native_case'):
         # the contract knows how to realise the abstract parts of the model with real objects
         case = K.native_case(model, ob)
+        if isinstance(case, dict) and 'confirmed' in case:       # the contract searched for a real failing input itself
+            print(json.dumps(case))
+            return
         if case is None:
             print(json.dumps({'confirmed': None, 'detail': 'the abstract parts of the model have no native realisation'}))
             return
